@@ -363,3 +363,89 @@ def rule_unchecked_inventory(ctx, R):
 
 
 import os  # noqa: E402
+
+
+# ----------------------------------------------------------------------------------
+# C03-R9 / C19-R7: every assumption (debug_checked_assume!: assert in debug, unreachable_unchecked in release)
+# is implied by an invariant that another rule establishes
+# ----------------------------------------------------------------------------------
+def rule_assumes(ctx, R):
+    """An `assume` is a branch one side of which inevitably reaches unreachable_unchecked(). If the assumed condition can
+    be false, release builds have undefined behaviour and debug builds panic: the two profiles diverge. Each assumption
+    written in gecs (judged once, in the function that contains it, not in its inlined copies) must have one of the
+    forms below, with the constant on the safe side of the invariant that discharges it:
+      D1  x.0 < C      x: TrimmedIndex, C >= MAX_DATA_CAPACITY     (constructors accept exactly v < MAX_DATA_CAPACITY, C03-R4)
+      D2  len <= C     len/capacity of the storage, C >= 2^24       (C12-R2: capacity <= 2^24, len <= capacity)
+      D3  x < x + 1    x the storage len                            (no wrap: len <= 2^24)
+      D4  d <= len     d the dense index a resolver returned        (C01-R1 / C09-R1: dense < len on the accepting path)"""
+    from .norm import atom, show_atom, contains
+    g = ctx.gecs
+    maxcap = (g.consts.get("index::MAX_DATA_CAPACITY") or {}).get("v")
+    if maxcap is None:
+        R.anchor_missing("const index::MAX_DATA_CAPACITY")
+        return
+    n = 0
+
+    def cval(v):
+        while isinstance(v, tuple) and v and v[0] == "cast":
+            v = v[2]
+        if isinstance(v, tuple) and v and v[0] == "const" and isinstance(v[1], int) and not isinstance(v[1], bool):
+            return v[1]
+        if isinstance(v, tuple) and v and v[0] == "uneval":
+            c = g.consts.get(v[1]) or {}
+            return c.get("v")
+        return None
+
+    def is_len(v):
+        return isinstance(v, tuple) and v and v[0] == "load" and v[1][0] == "field" and v[1][2] in ("len", "capacity")
+
+    for path, fn in sorted(g.fns.items()):
+        ps = ctx.paths(fn)
+        seen = set()
+        for p in ps or ():
+            for c in p.conds:
+                if c[2] != "assume":
+                    continue
+                # own frame only: inlined callees' assumptions are judged in the callee
+                depth = 0
+                for e in p.effects[:c[4]]:
+                    if e[0] == "call" and len(e) > 7 and e[7]:
+                        depth += 1
+                    elif e[0] == "ret":
+                        depth -= 1
+                if depth != 0:
+                    continue
+                (a, pol) = atom(c, keep=True)
+                sig = (show_atom((a, pol)))
+                if sig in seen:
+                    continue
+                seen.add(sig)
+                n += 1
+                ok, why = False, "no reviewed invariant has this form"
+                if a[0] == "cmp" and a[1] == "Lt":
+                    x, y = a[2], a[3]
+                    cx, cy = cval(x), cval(y)
+                    if pol and cy is not None and x[0] == "vfield" and x[2] == "0":
+                        root = x[1]
+                        ty = fn.local_ty(root[1]) if root[0] == "arg" else None
+                        if ty is not None and ty.endswith("index::TrimmedIndex"):
+                            ok, why = cy >= maxcap, "D1: x.0 < %d for x: TrimmedIndex (invariant x.0 < %d)" % (cy, maxcap)
+                    elif (not pol) and cx is not None and is_len(y):
+                        ok, why = cx >= maxcap, "D2: %s <= %d (invariant <= %d)" % (y[1][2], cx, maxcap)
+                    elif pol and is_len(x) and y[0] == "bin" and y[1] == "Add" and y[2] == x and cval(y[3]) == 1:
+                        ok, why = True, "D3: len < len + 1"
+                    elif (not pol) and is_len(x) and contains(y, lambda t: t[0] == "call" and ("resolve_entity" in t[1] or "resolve_direct" in t[1])):
+                        ok, why = True, "D4: resolved dense index <= len"
+                key = "%s|%s" % (fam(path), re_fold(sig))
+                for rid in ("C03-R9", "C19-R7"):
+                    R.check(ok, rid, key, "assumption discharged -- " + why,
+                            "%s assumes `%s` (unreachable_unchecked() in release, panic in debug when false): %s. A legal value would make release builds undefined and debug builds panic." % (path, sig[:160], why), where_of(fn, c[3]), fn=fn.key)
+    for rid in ("C03-R9", "C19-R7"):
+        R.check(n >= 20, rid, "assumes|count", "%d assumptions judged in their own functions" % n, "only %d assumptions found (expected >= 20)" % n, None)
+
+
+def re_fold(s):
+    import re
+    s = re.sub(r"\bStorage\d+\b", "StorageN", s)
+    s = re.sub(r"\bd\d+\b", "dN", s)
+    return s[:120]
